@@ -83,6 +83,15 @@ def main():
         meta["caught_with_failing_input"] = sorted(p for p, v in caught.items()
                                                    if v["exit"] == 1 and v["violation"] and "no-failing-input-found" not in v["violation"])
         print("caught by:", meta["caught_by"], "| with failing input:", meta["caught_with_failing_input"])
+        # keep the minimised failing inputs as regression cases (they run first in every later check)
+        added = []
+        for p in meta["caught_with_failing_input"]:
+            rp = os.path.join(VERIF, "replays", "%s-violation.json" % p)
+            if os.path.exists(rp):
+                rc, out = sh([PY, os.path.join(HERE, "addcorpus.py"), p, rp, "--src", args.seed], cwd=VERIF)
+                if rc == 0 and "added" in out:
+                    added.append(p)
+        meta["corpus_cases_added"] = added
         dest = os.path.join(VERIF, "seeded", args.seed)
         os.makedirs(dest, exist_ok=True)
         shutil.copy(patch, os.path.join(dest, "patch.diff"))
